@@ -15,8 +15,24 @@ import (
 
 // checkPrefix opens and iterates a truncated file; returns a violation if it is accepted.
 func checkPrefix(prop string, f *fx.Fixture, prefix []byte, full int) *Outcome {
+	if o := checkPrefixAt(prop, f, prefix, full, 0); o != nil {
+		return o
+	}
+	// the same prefix handed over with the source positioned after the leading magic (a caller that sniffed "PAR1" first)
+	if len(prefix) >= 4 {
+		if o := checkPrefixAt(prop, f, prefix, full, 4); o != nil && o.Key != "exempt" {
+			o.Msg = "[source handed over at offset 4] " + o.Msg
+			return o
+		}
+	}
+	return nil
+}
+
+func checkPrefixAt(prop string, f *fx.Fixture, prefix []byte, full int, startAt int64) *Outcome {
 	return guard(prop, func() *Outcome {
-		recs, _, rd, err := readAll(f, bytes.NewReader(prefix), 1<<20)
+		src := bytes.NewReader(prefix)
+		src.Seek(startAt, 0)
+		recs, _, rd, err := readAll(f, src, 1<<20)
 		if err != nil {
 			return nil
 		}
@@ -82,6 +98,7 @@ func TestC11(t *testing.T) {
 	cfg.gen.MaxList = 3
 	cfg.gen.LongStr = 60
 	rapid.Check(t, func(t *rapid.T) {
+		cfg.gen.Class = rapid.SampledFrom([]string{"", "", "", "thrift-nest"}).Draw(t, "class")
 		w := genWorkload(t, cfg)
 		if len(w.Batches) > 3 {
 			n := 0
